@@ -53,7 +53,7 @@ func (ch *Channel) Invoke(ctx context.Context, methodName string, req, resp inte
 	copts := internal.GetCallOptions(opts)
 
 	reqUrl := *ch.BaseURL
-	reqUrl.Path = path.Join(reqUrl.Path, methodName)
+	reqUrl.Path = methodPath(reqUrl.Path, methodName)
 	reqUrlStr := reqUrl.String()
 	ctx, err := internal.ApplyPerRPCCreds(ctx, copts, reqUrlStr, reqUrl.Scheme == "https")
 	if err != nil {
@@ -122,7 +122,7 @@ func (ch *Channel) NewStream(ctx context.Context, desc *grpc.StreamDesc, methodN
 	copts := internal.GetCallOptions(opts)
 
 	reqUrl := *ch.BaseURL
-	reqUrl.Path = path.Join(reqUrl.Path, methodName)
+	reqUrl.Path = methodPath(reqUrl.Path, methodName)
 	reqUrlStr := reqUrl.String()
 	ctx, err := internal.ApplyPerRPCCreds(ctx, copts, reqUrlStr, reqUrl.Scheme == "https")
 	if err != nil {
@@ -152,6 +152,19 @@ func (ch *Channel) NewStream(ctx context.Context, desc *grpc.StreamDesc, methodN
 	runtime.SetFinalizer(ret, func(*clientStreamWrapper) { cancel() })
 
 	return ret, nil
+}
+
+// methodPath returns the URL path for the given method name. The base path is
+// cleaned, like the server does when it registers its handlers, but the method
+// name is appended as is: cleaning it as well would make names that are not
+// registered, such as "/svc/Method/", "//svc//Method" or "/x/../svc/Method",
+// reach the handler registered for "/svc/Method".
+func methodPath(basePath, methodName string) string {
+	base := path.Join(basePath, "/")
+	if base == "/" {
+		base = ""
+	}
+	return base + "/" + strings.TrimPrefix(methodName, "/")
 }
 
 // clientStreamWrapper is the value handed to callers. Its finalizer cancels
